@@ -410,6 +410,19 @@ func c13CheckLex(src []rune) (bool, *mc.Failure) {
 	return true, nil
 }
 
+// contexts of an end-to-end literal (the value of the program must be the literal's text)
+var c13Contexts = []struct{ name, pre, post string }{
+	{"first-of-two-items", "输出【", "，1】#1"},
+	{"before-a-longer-text", "输出【", " “尾巴很长很长很长”】#1"},
+	{"before-a-shorter-text", "输出【", " “尾”】#1"},
+	{"behind-a-longer-text", "输出【“开头很长很长很长” ", "】#2"},
+	{"behind-a-shorter-text", "输出【“头” ", "，2】#2"},
+	{"between-two-texts", "输出【“头” ", " “尾巴”】#2"},
+	{"last-token-before-a-line-that-begins-with-a-text", "令甲 = ", "\n“下一行的文本”\n输出甲"},
+	{"dictionary-value-before-a-text-key", "输出【“键” = ", "，“另一个键” = “值”】#“键”"},
+	{"argument-before-a-text-argument", "如何取？\n    输入甲、乙\n    输出甲\n输出（取：", "、“第二个参数”）"},
+}
+
 // c13E2E runs 输出‹literal› through the interpreter.
 func c13E2E(src []rune, want string) *mc.Failure {
 	prog := append([]rune("输出"), src...)
@@ -432,12 +445,17 @@ func c13E2E(src []rune, want string) *mc.Failure {
 			f = &mc.Failure{Kind: "mismatch", Case: cs(), Expected: fmt.Sprintf("text %q", want), Observed: fmt.Sprintf("%T %v", v, v)}
 			return
 		}
-		// the literal followed by more of the statement on its own line: as the first of two list items
-		lst := append(append([]rune("输出【"), src...), []rune("，1】#1")...)
-		v3, err3 := exec.NewInterpreter("verif").LoadScript(lst).Execute(r.ElementMap{})
-		if s3, ok3 := v3.(*value.String); err3 != nil || !ok3 || s3.GetValue() != want {
-			f = &mc.Failure{Kind: "mismatch", Bucket: "as-list-item", Case: cs(), Expected: fmt.Sprintf("text %q also from 输出【<literal>，1】#1", want), Observed: fmt.Sprintf("%T %v err=%v", v3, v3, err3)}
-			return
+		// the literal with more of the program around it: followed by more of the statement on its own
+		// line, with another text literal directly behind or in front of it (items of a list may be
+		// separated by blanks alone, manual ch.3), as the last token of a statement whose next line
+		// begins with a literal, as a dictionary value
+		for _, cx := range c13Contexts {
+			full := append(append([]rune(cx.pre), src...), []rune(cx.post)...)
+			v3, err3 := exec.NewInterpreter("verif").LoadScript(full).Execute(r.ElementMap{})
+			if s3, ok3 := v3.(*value.String); err3 != nil || !ok3 || s3.GetValue() != want {
+				f = &mc.Failure{Kind: "mismatch", Bucket: "in-context:" + cx.name, Case: cs(), Expected: fmt.Sprintf("text %q also from %s<literal>%s", want, cx.pre, cx.post), Observed: fmt.Sprintf("%T %v err=%v", v3, v3, err3)}
+				return
+			}
 		}
 		// the same loaded script executed again (what a server worker does per request)
 		v2, err := in.Execute(r.ElementMap{})
@@ -555,7 +573,7 @@ func init() {
 		ID:    "C13",
 		Level: "exploration",
 		Rule: "E1 exhaustive: every literal body of length <= L over a 31-symbol critical alphabet (10 quote characters, backtick, CR, LF, letters of the escape names, +, hex digits, x, a CJK char, space) inside each of the 5 opening quotes, real lexer vs reference decoder; every sequence of <= 5 (6 thorough) words of a 23-word alphabet (escape names as units, hex words, quotes, line breaks); every backtick text of <= 5 letters over the 14 letters of the escape names (so every near miss of an escape name, e.g. `TABK`, `CRL`, `U+`); " +
-			"plus round trip text->canonical literal->lexer for every text <= L (3 encoders x 5 quotes) over the alphabet extended by Unicode scalar boundaries and 16 characters without a glyph of their own (variation selectors, zero-width characters, direction marks, soft hyphen, U+FEFF, a combining accent, U+FFFD, other line / space separators); texts <= 2 also evaluated (输出<literal>, as written and spelled `U+hex`). The lexer must leave its input unchanged, and the end-to-end cases (bodies <= 3 symbols in the two double-quote families, word sequences <= 2) execute one loaded script twice with the same value, and evaluate the literal once more as the first of two list items. Enumeration is injective (odometer), so every case is distinct; a case is non-trivial if it contains a backtick, a quote character or a line break (i.e. exercises more than verbatim copying).",
+			"plus round trip text->canonical literal->lexer for every text <= L (3 encoders x 5 quotes) over the alphabet extended by Unicode scalar boundaries and 16 characters without a glyph of their own (variation selectors, zero-width characters, direction marks, soft hyphen, U+FEFF, a combining accent, U+FFFD, other line / space separators); texts <= 2 also evaluated (输出<literal>, as written and spelled `U+hex`). The lexer must leave its input unchanged, and the end-to-end cases (bodies <= 3 symbols in the two double-quote families, word sequences <= 2) execute one loaded script twice with the same value, and evaluate the literal once more in nine contexts (first of two list items, directly before / behind / between other text literals of a blank-separated list, last token before a line that begins with a text, dictionary value, call argument). Enumeration is injective (odometer), so every case is distinct; a case is non-trivial if it contains a backtick, a quote character or a line break (i.e. exercises more than verbatim copying).",
 		Assumptions: []string{
 			"reference decoder written from manual chapters 1 and 6; where three readings of 'other backtick text is kept literally' disagree, only 'no crash and the value is one of the readings' is required",
 			"U+hex outside the Unicode scalar range is not asserted (statement restricts it to valid code points)",
